@@ -9,15 +9,22 @@ TRUSTED = ("testing/synctest quiescence (synctest.Wait) of the Go runtime",
 
 
 def cache_half(out, tier):
-    """HOOK: the 'never cached' half of C05 (a failed target leaves no cache entry, it and its dependants are
-    attempted again by the next build) comes from the build-history slice (Build.v); it plugs in here."""
-    pass
+    """the 'never cached' half of C05 (a failed target leaves no cache entry, it and its dependants are
+    attempted again by the next build): e2e histories on the real binary vs Build.v (c05_cache.py)."""
+    import c05_cache, histcheck as hc
+    batch, evals = c05_cache.cache_half(out, tier)
+    builds = hc.report_correspondence(out, "C05", batch)
+    st, nontriv = hc.stats(batch)
+    res = {"e2e_builds": st["builds"], "e2e_oracle_evaluations": evals, "e2e_histories": st["histories"],
+           "e2e_distinct_nontrivial": len(nontriv), "e2e_samples": hc.sample(batch, 2), "e2e_input_distribution": st}
+    hc.cleanup(batch)
+    return res
 
 
 def run(out, tier):
     info, scheds, extra = walkerlib.gated_campaign(out, "C05", tier, "fail")
     sinfo = walkerlib.stress_campaign(out, "C05", tier, "fail", race=False)
-    cache_half(out, tier)
+    e2e = cache_half(out, tier)
     samples = []
     for s in scheds[:400:150]:
         tr = extra.get("traces", {}).get(s["id"])
@@ -27,16 +34,18 @@ def run(out, tier):
     out.cov.update(info)
     out.cov.update(sinfo)
     out.cov.update({
-        "evaluations": info.get("steps", 0) + sinfo.get("ungated_walks", 0) + sinfo.get("ungated_walker_only_walks", 0),
-        "rule": "gated: one evaluation per quiescent step + containment oracles per run; ungated: one per walk; "
-                "distinct_nontrivial = distinct (graph, W, mode, failing set, action sequence) with more than 3 actions",
+        "evaluations": info.get("steps", 0) + sinfo.get("ungated_walks", 0) + sinfo.get("ungated_walker_only_walks", 0) + e2e["e2e_builds"] + e2e["e2e_oracle_evaluations"],
+        "distinct_nontrivial": out.cov.get("distinct_nontrivial", 0) + e2e["e2e_distinct_nontrivial"],
+        "rule": "gated: one evaluation per quiescent step + containment oracles per run; ungated: one per walk; e2e: one per grog build + one per oracle; "
+                "distinct_nontrivial = distinct (graph, W, mode, failing set, action sequence) with more than 3 actions + distinct e2e histories with at least two operations and two builds",
         "samples": samples,
-        "traces_validated_against_impl": info.get("traces", 0),
+        "traces_validated_against_impl": info.get("traces", 0) + e2e["e2e_histories"],
         "input_distribution": info.get("distribution", {}),
+        "e2e": e2e,
         "failing_subsets": "all subsets on %d tiny graphs x both modes; 1-3 random failing nodes on larger graphs" % len(walkerlib.TINY),
     })
     out.assumptions += walkerlib.ASSUMPTIONS
-    out.notes.append("containment half of C05 only; the never-cached half is the hook cache_half (build-history slice)")
+    out.notes.append("containment half: walker harness; never-cached half: e2e histories with failing commands on the real binary vs Build.v")
 
 
 def replay(out, path):
